@@ -109,7 +109,20 @@ class World:
             elif op == "copy_mgr":
                 self.mgrs[ev["res"]] = self.mgrs[a[0]].copy()
             elif op == "assign":
-                self.owners[a[0]].landmarks = self.mgrs[a[1]]
+                self.n_assign = getattr(self, "n_assign", 0) + 1
+                src = self.mgrs[a[1]]
+                if self.n_assign % 2 == 0 and src.n_groups:
+                    # the library's own route for the same assignment: copy_landmarks_and_path(source, target) hands the source's
+                    # manager to the target (as_masked / as_unmasked / from_vector use it) - dimension check and copy included
+                    from menpo.base import copy_landmarks_and_path
+
+                    class _Source:
+                        landmarks = src
+                        has_landmarks = True
+
+                    copy_landmarks_and_path(_Source(), self.owners[a[0]])
+                else:
+                    self.owners[a[0]].landmarks = src
             elif op == "transform_owner":
                 w = self.owners[a[0]]
                 if hasattr(w, "warp_to_shape"):
